@@ -106,7 +106,8 @@ func (c11) Plan(tier string, seed int64) []mon.Workload {
 		{Name: "shared-parts", N: int64(len(c11SharedBuilds) * len(c11SharedUses)), Exhaustive: true},
 		{Name: "string-edges", N: int64(len(c11EdgeOps) * len(c11EdgeVals) * 5), Exhaustive: true},
 		{Name: "read-move-op", N: int64(len(c11RMReads) * len(c11RMMoves) * len(c11RMOps) * 3), Exhaustive: true},
-		{Name: "long-subjects", N: int64(len(c11LongOps) * len(c11LongSizes) * 3), Exhaustive: true}}
+		{Name: "long-subjects", N: int64(len(c11LongOps) * len(c11LongSizes) * 3), Exhaustive: true},
+		{Name: "printf-across-use", N: int64(len(c11PUMains) * len(c11PUMids) * len(c11PULeaves)), Exhaustive: true}}
 }
 
 // string-edges (exhaustive): the string builtins on subjects whose ENDS are
@@ -170,6 +171,101 @@ func c11LongSubject(i int64) c11Case {
 		panic(err)
 	}
 	return c11Case{Stmts: gt.CloneStmts(l), Point: pt, Cell: "long-subjects"}
+}
+
+// printf-across-use (exhaustive): what a run has printed is on the standard
+// output when the run returns - whoever printed it (the script itself, a
+// script reached through use(), two levels down) and however the run ends
+// (normally, by exit() in a callee, by a run-time error in a callee after it
+// has printed, by an error in the caller after the callee returned).
+var c11PUMains = []string{
+	"printf(\"A;\")\nuse(\"mid.p\")\nprintf(\"C;\")\n",
+	"use(\"mid.p\")\nprintf(\"C;\")\n",
+	"printf(\"A;\")\nuse(\"mid.p\")\n",
+	"printf(\"A%d;\", 1)\nuse(\"mid.p\")\nprintf(\"C;\")\nx = 1 / zero\n",
+	"for i = 0; i < 2; i = i + 1 {\n  printf(\"A%d;\", i)\n  use(\"mid.p\")\n}\nprintf(\"C;\")\n",
+	"if true {\n  use(\"mid.p\")\n}\nprintf(\"C;\")\n",
+}
+var c11PUMids = []string{"LEAF", "printf(\"M;\")\nuse(\"leaf.p\")\nprintf(\"N;\")\n", "use(\"leaf.p\")\n", "printf(\"M;\")\nuse(\"leaf.p\")\nw = [1]\ny = w[5]\n"}
+var c11PULeaves = []string{
+	"printf(\"B=%d;\", 5)\n",
+	"printf(\"B=%d;\", 5)\nw = [1]\ny = w[5]\n",
+	"w = [1]\ny = w[5]\nprintf(\"B;\")\n",
+	"printf(\"B;\")\nexit()\nprintf(\"never;\")\n",
+	"printf(\"B1;\")\nprintf(\"B2;\")\nx = 1 / zero\n",
+	"for e in [1, 2] {\n  printf(\"b%d;\", e)\n  if e == 2 {\n    y = e[0]\n  }\n}\n",
+	"add_key(k, 1)\n",
+}
+
+func c11PrintfUse(i int64) map[string]string {
+	leaf := c11PULeaves[int(i)%len(c11PULeaves)]
+	i /= int64(len(c11PULeaves))
+	mid := c11PUMids[int(i)%len(c11PUMids)]
+	main := c11PUMains[int(i)/len(c11PUMids)]
+	srcs := map[string]string{"main.p": "zero = 0\n" + main}
+	if mid == "LEAF" {
+		srcs["mid.p"] = "zero = 0\n" + leaf
+	} else {
+		srcs["mid.p"] = mid
+		srcs["leaf.p"] = "zero = 0\n" + leaf
+	}
+	return srcs
+}
+
+func c11RunPrintfUse(c *mon.Ctx, i int64) {
+	srcs := c11PrintfUse(i)
+	info := map[string]any{"scripts": srcs}
+	prog := &ref.Program{Scripts: map[string][]*gt.T{}, Funcs: ref.Merge(ref.ProbeFuncs(), ref.FieldFuncs())}
+	for name, text := range srcs {
+		o := drive.Parse(name, text)
+		if o.Err != nil {
+			panic("c11: printf-across-use script does not parse: " + text + ": " + o.Err.Error())
+		}
+		l, err := gt.FromStmts(o.Stmts)
+		if err != nil {
+			panic(err)
+		}
+		prog.Scripts[name] = gt.CloneStmts(l)
+	}
+	mp := ref.NewPoint("m", nil, map[string]any{"message": "x"}, time.Unix(1700000000, 0))
+	model := mp.Clone()
+	mo := ref.Run(prog, "main.p", model, modelBudget)
+	if mo.Unspecified != "" {
+		c.Count("not_compared_unspecified", 1)
+		c.Cell("unspecified_reasons", firstLineOf(mo.Unspecified))
+		return
+	}
+	loaded, errs := drive.LoadV1(srcs)
+	c.Eval(1)
+	if len(errs) > 0 {
+		c.Violate("valid-program-rejected", fmt.Sprintf("%v\n%s", errs, srcDump(srcs)), info)
+		return
+	}
+	want := mo.Shared.Stdout.String()
+	for run := 1; run <= 2; run++ {
+		real := drive.PointFromModel(mp)
+		var ro drive.Outcome
+		stdout := drive.CaptureStdout(func() { ro = drive.RunV1(loaded["main.p"], real, &drive.RunState{Budget: 20000}) })
+		c.Eval(1)
+		c.Count("compared", 1)
+		c.Nontrivial(fmt.Sprint("printf-use", i))
+		if ro.Panic != nil {
+			c.Violate("panic", fmt.Sprintf("%v\n%s", ro.Panic, srcDump(srcs)), info)
+			return
+		}
+		if (ro.Err != nil) != (mo.Err != nil) {
+			c.Violate("error-presence:printf-across-use", fmt.Sprintf("run %d: real error %s, reference error %v\n%s", run, drive.ErrString(ro.Err), mo.Err != nil, srcDump(srcs)), info)
+			return
+		}
+		if stdout != want {
+			c.Violate("stdout-differs:printf-across-use", fmt.Sprintf("run %d of the loaded set wrote %q to the standard output; the scripts printed %q before the run ended (error: %v)\n%s", run, stdout, want, mo.Err != nil, srcDump(srcs)), info)
+			return
+		}
+		if d := comparePoint(real, model); d != "" {
+			c.Violate("point-mismatch:printf-across-use", d+"\n"+srcDump(srcs), info)
+			return
+		}
+	}
 }
 
 func c11ReadMoveOp(i int64) c11Case {
@@ -510,6 +606,9 @@ func (k c11) Describe(c *mon.Ctx, workload string, i int64) any {
 		}
 		return map[string]any{"source": gt.Print(gt.ParenthesizeStmts(cs.Stmts), nil)}
 	}
+	if workload == "printf-across-use" {
+		return map[string]any{"scripts": c11PrintfUse(i)}
+	}
 	if workload == "long-subjects" {
 		cs := c11LongSubject(i)
 		return map[string]any{"source_head": firstN(gt.Print(gt.ParenthesizeStmts(cs.Stmts), nil), 3), "index": i}
@@ -596,6 +695,10 @@ func (k c11) Run(c *mon.Ctx, workload string, i int64) {
 			return
 		}
 		runBuiltinCase(c, cs.Stmts, cs.Point, cs.Cell, ref.Merge(ref.ProbeFuncs(), ref.FieldFuncs()), "c11.p")
+		return
+	}
+	if workload == "printf-across-use" {
+		c11RunPrintfUse(c, i)
 		return
 	}
 	if workload == "long-subjects" {
